@@ -233,8 +233,8 @@ if p.check(kind) {
 p.advance()
 return
 }
-if kind == TokenGreater && p.check(TokenGreaterGreater) {
-p.splitGreaterGreater()
+if kind == TokenGreater {
+_ = p.expectTemplateClose()
 }
 }"%string.
 
@@ -244,9 +244,8 @@ if p.check(kind) {
 p.advance()
 return nil
 }
-if kind == TokenGreater && p.check(TokenGreaterGreater) {
-p.splitGreaterGreater()
-return nil
+if kind == TokenGreater {
+return p.expectTemplateClose()
 }
 return &ParseError{
 Message:	fmt.Sprintf(""expected %s, got %s"", kind, p.peek().Kind),
